@@ -13,7 +13,7 @@ from typing import Any, Dict, List
 
 PROPERTY = "C06"
 TAUS = [1.0, 1e-3, 0.25, 0.5, 3.0, 1e3]
-FNS = ["identity", "double", "tanh", "square", "linear", "tanh_linear", "u_gelu", "zero"]
+FNS = ["identity", "double", "tanh", "square", "linear", "tanh_linear", "u_gelu", "zero", "inplace_double", "to_float32"]
 SUB_TAUS = [0.25, 1.0, 3.0]
 SUB_FNS = ["double", "tanh", "linear"]
 SHAPES = [[], [3], [2, 3], [2, 1, 4]]
@@ -86,6 +86,12 @@ def cases(tier: str, seed: int) -> List[Dict[str, Any]]:
             for pre in ("bfloat16", "float16", "float32"):
                 out.append({"forest": [[tau, fn, []]], "shape": [2, 3], "mode": "split_add", "seed": seed, "pre_dtype": pre})
                 out.append({"forest": [[tau, fn, [[tau, "tanh", []]]]], "shape": [3], "mode": "apply", "seed": seed, "pre_dtype": pre})
+    for tau in (0.25, 1.0, 3.0, None):
+        for fn in ("inplace_double", "tanh", "to_float32"):
+            for mode in ("split_add", "apply"):
+                out.append({"forest": [[tau, fn, []]], "shape": [2, 3], "mode": mode, "seed": seed, "grad_mode": "input_no_grad"})
+                out.append({"forest": [[tau, fn, []], [tau, "tanh", [[tau, fn, []]]]], "shape": [3], "mode": mode, "seed": seed,
+                            "grad_mode": "input_no_grad"})
     nmax = 3 if tier == "quick" else 4
     sub = list(itertools.product(SUB_TAUS, SUB_FNS))
     for n in range(2, nmax + 1):
@@ -129,6 +135,8 @@ def _fn(name: str, d: int) -> Any:
         "tanh_linear": lambda x: torch.tanh(x @ W),
         "u_gelu": lambda x: U.gelu(x),
         "zero": lambda x: x * 0.0,
+        "inplace_double": lambda x: x.mul_(2.0),  # a branch that starts with an in-place op on its argument
+        "to_float32": lambda x: torch.tanh(x).to(torch.float32),  # branch in lower precision than the stream
     }[name]
 
 
@@ -153,6 +161,8 @@ def run_case(case: Dict[str, Any]) -> Dict[str, Any]:
         return s
 
     ident = f"{mode}|layers={count(forest)}|nested={int(any(k[2] for k in forest))}"
+    mixed = any(fn == "to_float32" for _, fn in kinds(forest))  # float32 branch on a float64 stream
+    vtol = 1e-6 if mixed else 1e-11  # the branch contribution is then only float32-accurate
     gmode = case.get("grad_mode")
     if gmode:
         ident += f"|{gmode}"
@@ -191,7 +201,7 @@ def run_case(case: Dict[str, Any]) -> Dict[str, Any]:
         def ref(f: Any, x: Any) -> Any:
             for tau, fname, kids in f:
                 t = 1.0 if tau is None else tau
-                b = ref(kids, _fn(fname, d)(x))
+                b = ref(kids, (x * 2.0) if fname == "inplace_double" else _fn(fname, d)(x))
                 x = (x + t * b) / (1 + t * t) ** 0.5
             return x
 
@@ -213,15 +223,24 @@ def run_case(case: Dict[str, Any]) -> Dict[str, Any]:
                 pass
             pairs.clear()
         if gmode:
-            ctx = torch.no_grad() if gmode == "no_grad" else torch.inference_mode()
+            import contextlib
+
+            ctx = {"no_grad": torch.no_grad, "inference_mode": torch.inference_mode}.get(gmode, contextlib.nullcontext)()
+            xin = x0.clone()
             try:
                 with ctx:
-                    yi = impl(forest, x0.clone())
+                    yi = impl(forest, xin)
             except Exception as e:  # noqa
                 return {"violations": [exception_violation(e, ident)], "steps": 1, "outcome": "raises"}
+            if not torch.equal(xin, x0):
+                viol.append({"key": ident + "|caller_input_modified", "msg": f"forest={forest}"})
+                break
             yr = ref(forest, x0.clone())
+            if yi.dtype != yr.dtype:
+                viol.append({"key": ident + "|output_dtype", "msg": f"forest={forest}: {yi.dtype} vs {yr.dtype} (type promotion of skip + branch)"})
+                break
             sc = max(yr.abs().max().item(), 1e-300)
-            if yi.shape != yr.shape or not bool(((yi - yr).abs() <= 1e-11 * sc + 1e-12 * yr.abs()).all()):
+            if yi.shape != yr.shape or not bool(((yi - yr).abs() <= vtol * sc + 1e-12 * yr.abs()).all()):
                 viol.append({"key": ident + "|forward_value", "msg": f"forest={forest}: max err {(yi - yr).abs().max().item():.3e}"})
                 break
             steps += count(forest)
@@ -239,14 +258,18 @@ def run_case(case: Dict[str, Any]) -> Dict[str, Any]:
 
         def close(a: Any, b: Any) -> bool:
             scale = max(b.abs().max().item(), 1e-300)
-            return bool(((a - b).abs() <= 1e-11 * scale + 1e-12 * b.abs()).all())
+            return bool(((a - b).abs() <= vtol * scale + 1e-12 * b.abs()).all())
 
-        if yi.shape != yr.shape or not close(yi.detach(), yr.detach()):
+        if yi.dtype != yr.dtype:
+            viol.append({"key": ident + "|output_dtype", "msg": f"forest={forest}: {yi.dtype} vs {yr.dtype}"})
+        elif yi.shape != yr.shape or not close(yi.detach(), yr.detach()):
             viol.append({"key": ident + "|forward_value", "msg": f"forest={forest} shape={shape}: max err {(yi.detach()-yr.detach()).abs().max().item():.3e}"})
         if xi.grad is None or not close(xi.grad, xr.grad):
             err = float("nan") if xi.grad is None else (xi.grad - xr.grad).abs().max().item()
             viol.append({"key": ident + "|input_gradient", "msg": f"forest={forest} shape={shape}: max err {err:.3e}"})
         for h in pairs:
+            if mixed:
+                break
             if "branch" in h and "out" in h and not torch.equal(h["branch"], h["out"]):
                 viol.append({"key": ident + "|branch_gradient_attenuated", "msg": f"forest={forest}: grad at branch output != grad at residual_add output"})
                 break
